@@ -1,6 +1,7 @@
-(** Round trip for sources containing references `$t( ns : a . b )` (properties C06 / C01), part 1:
-    the source AST with references, its printer, its denotation (a reference denotes the
-    [PcForeign] piece), well-formedness, character facts and string-level splitting lemmas. *)
+(** Round trip for sources containing references `$t( ns : a . b )` and `$t(a.b, {"k": "string", "n": 3})`
+    (properties C06 / C01), part 1: the source AST with references, its printer, its denotation
+    (a reference denotes the [PcForeign] piece), well-formedness, character facts and string-level
+    splitting lemmas. *)
 From Coq Require Import List NArith ZArith Bool Arith Lia.
 Import ListNotations.
 From LI Require Import Base.StrOps Base.StrLemmas Parser.Parse Parser.Reduce Parser.Source Parser.Scan
